@@ -292,7 +292,7 @@ class TokenParser(Parser):
             counts = count_expression.split("][") if "][" in count_expression else [count_expression]
 
             for count in reversed(counts):
-                if count == "":
+                if count.strip() == "":
                     count = None
                 else:
                     count = Expression(self.cstruct, count)
